@@ -15,10 +15,10 @@ PACKAGES = {
     "p_proto": {},
 }
 
-HOOK_COMMITS = ["5279cbd"]
+HOOK_COMMITS = ["5279cbd", "73ef5ac", "20fd7ae"]
 
 # properties whose check is finished and registered in MANIFEST.json (the integrator adds ids here)
-CLAIMED = ["C14", "C15"]
+CLAIMED = ["C07", "C08", "C09", "C10", "C11", "C14", "C15", "C18", "C19", "C20"]
 
 # properties deliberately not claimed, with the reason (none: all 20 are meant to be claimed)
 NOT_APPLICABLE = {}
